@@ -94,9 +94,10 @@ func (d *drain) take() []delivered {
 
 func addrText(a cAddr) []byte { t, _ := a.MarshalText(); return t }
 
-func runC10(c *ctxT) {
+func runC10(c *ctxT) { runC10n(c, c.scale(160, 3000)) }
+
+func runC10n(c *ctxT, n int) {
 	r := c.rng
-	n := c.scale(160, 3000)
 	for i := 0; i < n; i++ {
 		k := fragKinds[i%2]
 		inner := gen.Pick(r, []int{k.hdr + 1, k.hdr + 2, k.hdr + 5, 40, 64, 100, 200, 1280})
@@ -124,6 +125,8 @@ func c10Case(c *ctxT, r *gen.R, k fragLayerKind, inner int) {
 	msgOf := map[int]int{} // pool index -> message serial
 	serial := 0
 	part := inner - k.hdr
+	var firstNode *ctrlnet.Node
+	firstSize := 0
 	for s := 0; s < nSrc; s++ {
 		sn := net.NewNode()
 		su := k.wrap(sn, cfgMTU)
@@ -141,12 +144,41 @@ func c10Case(c *ctxT, r *gen.R, k fragLayerKind, inner int) {
 			if size > 254*part {
 				size = 254 * part
 			}
+			oversize := false
+			if part <= 8 && r.Intn(6) == 0 {
+				// more fragments than the header can count: the sender must refuse, never wrap the count
+				maxParts := 255
+				if k.name == "mbapp" {
+					maxParts = 65535
+				}
+				if (maxParts+3)*part <= 3000 {
+					size = (maxParts+1)*part + r.Intn(2*part)
+					oversize = true
+				}
+			}
 			payload := patBytes(uint64(serial)*37+1, size)
 			if size >= 2 {
 				payload[0], payload[1] = byte(serial), byte(serial>>8) // unique content
 			}
 			if err := su.Tell(ctx, recvNode.LocalAddr(), p2p.IOVec{payload}); err != nil {
+				if oversize && p2p.IsErrMTUExceeded(err) {
+					net.Take()
+					continue // refused, as it must be: nothing was sent
+				}
 				panic(err)
+			}
+			if oversize {
+				// accepted although it needs more fragments than the header can count: whatever the receiver
+				// makes of these fragments, it was not told (the ledger does not list it)
+				for _, p := range net.Take() {
+					msgOf[len(pool)] = serial
+					pool = append(pool, p)
+				}
+				serial++
+				continue
+			}
+			if s == 0 && m == 0 {
+				firstNode, firstSize = sn, size
 			}
 			ledger = append(ledger, sx.L(sx.B(addrText(sn.LocalAddr())), sx.B(payload)))
 			for _, p := range net.Take() {
@@ -188,6 +220,21 @@ func c10Case(c *ctxT, r *gen.R, k fragLayerKind, inner int) {
 	for j := 0; j < r.Intn(4) && len(pool) > 0; j++ {
 		sched = append(sched, r.Intn(len(pool)))
 		dups++
+	}
+	if k.name == "fragswarm" && firstNode != nil && firstSize > part && r.Intn(2) == 0 {
+		// the first source restarts: a new layer on the same address numbers its messages from the start again
+		su2 := k.wrap(firstNode, cfgMTU)
+		payload := patBytes(uint64(serial)*37+11, firstSize)
+		payload[0], payload[1] = byte(serial), 0xEE
+		if err := su2.Tell(ctx, recvNode.LocalAddr(), p2p.IOVec{payload}); err != nil {
+			panic(err)
+		}
+		ledger = append(ledger, sx.L(sx.B(addrText(firstNode.LocalAddr())), sx.B(payload)))
+		for _, p := range net.Take() {
+			sched = append(sched, len(pool))
+			pool = append(pool, p)
+		}
+		serial++
 	}
 	var pkts, obs []sx.V
 	for _, i := range sched {
